@@ -361,6 +361,9 @@ impl<'a> QGen<'a> {
     }
 
     fn int(&self, rng: &mut Rng) -> i64 {
+        if rng.chance(1, 60) {
+            return *rng.pick(&[9007199254740991i64, -9007199254740991, 2147483648, -2147483649, 4294967296, 65536, 255, 256, 1000]);
+        }
         if rng.chance(1, 10) {
             *rng.pick(&[8i64, 9, 16, 33, -9, -17, 39, 12])
         } else {
@@ -380,7 +383,7 @@ impl<'a> QGen<'a> {
         if rng.chance(1, 3) {
             s.push(':');
             if rng.chance(4, 5) {
-                let st = *rng.pick(&[1i64, 2, -1, -2, 3, 0]);
+                let st = if rng.chance(1, 30) { *rng.pick(&[2147483648i64, -2147483648, 9007199254740991, -9007199254740991, 100]) } else { *rng.pick(&[1i64, 2, -1, -2, 3, 0]) };
                 s.push_str(&st.to_string());
             }
         }
@@ -410,7 +413,7 @@ impl<'a> QGen<'a> {
             1 => ".*".to_string(),
             2 => format!("[{}{}{}]", self.sp(rng), self.selector(rng, depth), self.sp(rng)),
             _ => {
-                let n = 2 + rng.below(2);
+                let n = if rng.chance(1, 12) { 8 + rng.below(6) } else { 2 + rng.below(2) };
                 let sels: Vec<String> = (0..n).map(|_| self.selector(rng, depth)).collect();
                 format!("[{}]", sels.join(if self.fancy && rng.chance(1, 5) { " , " } else { "," }))
             }
@@ -606,7 +609,8 @@ impl<'a> QGen<'a> {
     pub fn query(&self, rng: &mut Rng, tier: usize) -> String {
         let max = [2, 3, 4][tier.min(2)];
         let mut q = String::from("$");
-        let n = 1 + rng.below(max);
+        // now and then a long chain of segments
+        let n = if tier == 2 && rng.chance(1, 25) { 8 + rng.below(6) } else { 1 + rng.below(max) };
         for _ in 0..n {
             let depth = if tier == 0 { 2 } else { 0 };
             q.push_str(&self.segment(rng, depth));
